@@ -83,6 +83,10 @@ func runNetChild(b netBatch, results []netResult) (finished int, died bool, stde
 	if code == 3 {
 		return finished, false, stderr, fmt.Errorf("child harness error: %s", stderr)
 	}
+	if code == 4 {
+		// the child left after a finished case because its world is unusable: not a crash
+		return finished, false, stderr, nil
+	}
 	if code == 0 && !ended {
 		return finished, false, stderr, errors.New("child ended without finishing its batch")
 	}
@@ -362,6 +366,8 @@ func emitNet(out *hlib.Out, c netCase, r netResult) {
 		term = coqVer(c, r)
 	case "lim":
 		term = coqLim(c, r)
+	case "store":
+		term = coqStore(c, r)
 	}
 	kind := "net-" + c.Net
 	if c.Name == "nonneg" {
@@ -408,7 +414,7 @@ func netJobs(seed uint64, thorough bool) []*netJob {
 		parts = 8
 	}
 	all := append(append(append([]netCase(nil), dl...), srv...), ver...)
-	jobs := []*netJob{{mode: "srvlive", cases: []netCase{liveSrv(seed)}}}
+	jobs := []*netJob{{mode: "srvlive", cases: []netCase{liveSrv(seed)}}, {mode: "store", cases: storeCases(r.Fork(), seed, thorough)}}
 	for k := 0; k < parts; k++ {
 		j := &netJob{mode: "net"}
 		for i := k; i < len(all); i += parts {
